@@ -98,7 +98,7 @@ LogOne(m, e, C) ==
                       /\ ~GetB(m.closed, h)                                   \* a handle that reported closed cannot act any more
                       /\ e.v = I(n)                                           \* once / consecutive sequence numbers
                       /\ (td[2] # 2 => n = 0)
-                      /\ e.at >= td[4] + (IF td[2] = 2 THEN (n + 1) * td[3] ELSE IF td[3] >= 0 THEN td[3] ELSE 0)   \* never early
+                      /\ e.at >= td[4] + (IF td[2] = 2 THEN td[5] + n * td[3] ELSE IF td[3] >= 0 THEN td[3] ELSE 0)   \* never early (td[5]: the first tick of a repeating task)
        IN [Flag(m, ~ok, "C19", C.checks) EXCEPT !.truns = IF e.t = "R" THEN SetAt(@, k, n + 1, 0) ELSE @]
   ELSE IF e.t = "P"      \* not a notification: what peek() answered inside the callback (C12: the most recent value)
   THEN Flag(m, e.v # BLatest(m.g, Len(m.g), PA(m.hroot[GetI(m.ph, e.p)])), "C12", C.checks)
@@ -393,7 +393,8 @@ MonStep(m0, step, C) ==
                [mh EXCEPT !.rh = Append(@, mh.nh), !.hx[mh.nh] = s.a]
           [] s.k = "tsched" ->      \* a task handle; hroot = -(10 + kind)
                LET mh == NewHandle(m, -10 - s.a) IN
-               [mh EXCEPT !.rh = Append(@, mh.nh), !.tdelay = Append(@, <<mh.nh, s.a, s.b, m.now>>)]
+               [mh EXCEPT !.rh = Append(@, mh.nh), !.tdelay = Append(@, <<mh.nh, s.a, s.b, m.now, IF s.v[1] = "i" THEN W(s.v) ELSE s.b>>)]
+          [] s.k = "mretain" -> m            \* MultiSubscription::retain(): changes nothing an observer can see
           [] s.k = "mnew" ->
                LET mh == NewHandle(m, -1) IN [mh EXCEPT !.rh = Append(@, mh.nh)]      \* root -1: a bare composite
           [] s.k = "adv" -> [m EXCEPT !.now = @ + s.a]
